@@ -96,6 +96,10 @@ THEOREMS = [
     "Verif.C20.salt_models_join_water_continuously",
     "Verif.C20.hydro_bulk_small_bead_limit",
     "Verif.C20.passive_init_wall_drag_exceeds_bulk",
+    "Verif.C20.bispherical_coordinates_published",
+    "Verif.C20.stimson_refuses_overlap",
+    "Verif.C20.stimson_label_swap",
+    "Verif.C20.stimson_sum_is_truncated_series",
 ]
 RULE = (
     "corpus (reference points, boundary inputs) + fixed dense log-spaced grids over the property's domain (f 0.1 Hz-100 kHz, "
@@ -541,6 +545,8 @@ def impl(case):
             raise ValueError(which)
         if k == "stimsonbad":
             return [ef(dm.coupling_correction_factor_stimson(c["R1"], c["R2"], c["d"])[0])]
+        if k == "bispherical":
+            return [efl([float(v) for v in dm.to_curvilinear_coordinates(c["R1"], c["R2"], c["d"])])]
         if k == "stimson2":
             a = dm.coupling_correction_factor_stimson(c["R1"], c["R2"], c["d"])
             b = dm.coupling_correction_factor_stimson(c["R2"], c["R1"], c["d"])
@@ -678,6 +684,19 @@ def step_tokens(steps):
     return " ".join(f"B {enc_float(st[1])}" if st[0] == "B" else f"A {enc_float(st[1])} {int(st[2])}" for st in steps)
 
 
+STIMSON_MODEL_GAP = 1e-6  # relative gap between the beads from which the model is asked (closer: F14 corpus inputs, oracle only)
+STIMSON_REL = 2e-8        # model vs implementation for the Stimson-Jeffery series (thousands of cancelling summands near contact)
+
+
+def _stimson_ops(r1, r2, d):
+    """both factors of `coupling_correction_factor_stimson(r1, r2, d)` from the Lean model (`stimson`: bispherical
+    coordinates, Eq. 25-31, the summation loop with its stopping rule) - from contact + 1e-6 outwards"""
+    E = enc_float
+    if d >= (r1 + r2) * (1 + STIMSON_MODEL_GAP):
+        return [f"c20.stimson {E(r1)} {E(r2)} {E(d)} 1", f"c20.stimson {E(r1)} {E(r2)} {E(d)} 2"]
+    return ["c20.outside stimson", "c20.outside stimson"]
+
+
 def ops(case):
     c = case
     k = c["op"]
@@ -715,7 +734,7 @@ def ops(case):
     if k == "couple":
         return [f"c20.goldman {E(c['R'])} {E(c['d'])} T", f"c20.goldman {E(c['R'])} {E(c['d'])} F",
                 f"c20.goldman {E(c['R'])} {E(c['d2'])} T", f"c20.goldman {E(c['R'])} {E(c['d2'])} F",
-                "c20.outside stimson", "c20.outside stimson", "c20.outside couple2d", "c20.outside geometry", "c20.outside geometry"]
+                *_stimson_ops(c["R"], c["R"], c["d"]), "c20.outside couple2d", "c20.outside geometry", "c20.outside geometry"]
     if k == "visc":
         return [f"c20.visc {E(c['T'])}", f"c20.visc {E(c['T2'])}"]
     if k == "salt":
@@ -728,11 +747,13 @@ def ops(case):
         t, m, p = E(c["T"]), E(c["m"]), E(c["p"])
         return [f"c20.saltdens {t} {m} {p}" if c["which"] == "dens" else "c20.outside saltapi"]
     if k == "stimsonbad":
-        return ["c20.outside stimson"]
+        return [f"c20.stimson {E(c['R1'])} {E(c['R2'])} {E(c['d'])} 1"]
+    if k == "bispherical":
+        return [f"c20.bispherical {E(c['R1'])} {E(c['R2'])} {E(c['d'])}"]
     if k == "waterseq":
         return [f"c20.water {q['fn']} [{','.join(E(t) for t in q['T'])}] {eo(q['c'])} {eo(q['p'])}" for q in c["queries"]]
     if k == "stimson2":
-        return ["c20.outside stimson"] * 4
+        return _stimson_ops(c["R1"], c["R2"], c["d"]) + _stimson_ops(c["R2"], c["R1"], c["d"])
     if k == "setdrag":
         a = c
         tail = f"{cfg_tokens(c['cfg'])} {E(a['f'])} {E(a['fc'])} {E(a['D'])} {E(a['fd'])} {E(a['alpha'])} {E(a['gamma'])}"
@@ -796,6 +817,8 @@ def agree(case, i, ia, ma):
     a, m = dec(ia), dec(ma)
     if isinstance(a, str) or isinstance(m, str):
         return a == m
+    if case["op"] in ("couple", "stimson2") and isinstance(a, float) and ops(case)[i].startswith("c20.stimson"):
+        return close(a, m, STIMSON_REL, 1e-300)
     if isinstance(a, list) != isinstance(m, list):
         return False
     if isinstance(a, list):
@@ -1303,6 +1326,19 @@ def oracle(case, ia):
         if t < 110 and abs(p - 0.101325) < 1e-12 and not _rel(visc0, o_visc_huber(t), 5e-3):
             return f"salt-joins-water: Kestin water viscosity {visc0!r} vs Huber {o_visc_huber(t)!r} at T = {t!r} (> 0.5 %)"
         return None
+    if k == "bispherical":
+        # Stimson & Jeffery's bispherical coordinates: r1 = a cosech(alpha), r2 = -a cosech(beta), the centres at
+        # a coth(alpha) and a coth(beta) on the line of centres, their distance d; alpha > 0 > beta, a > 0
+        R1, R2, d = c["R1"], c["R2"], c["d"]
+        a, al, be = vals[0]
+        if not (a > 0 and al > 0 > be):
+            return f"bispherical-coordinates: a = {a!r}, alpha = {al!r}, beta = {be!r} for r1={R1!r}, r2={R2!r}, d={d!r} (expected a > 0, alpha > 0 > beta)"
+        got = (a / math.sinh(al), -a / math.sinh(be), a / math.tanh(al) - a / math.tanh(be))
+        for name, g, e in (("r1 = a cosech(alpha)", got[0], R1), ("r2 = -a cosech(beta)", got[1], R2), ("d = a coth(alpha) - a coth(beta)", got[2], d)):
+            # sinh(alpha) = sqrt(x^2 - 1) at x = d1/r1 -> 1 near contact: rounding of x is amplified by 1/(x^2 - 1) ~ 1/gap
+            if not _rel(g, e, max(1e-9, 1e-14 / (d / (R1 + R2) - 1))):
+                return f"bispherical-coordinates: {name}: {g!r} vs {e!r} (r1={R1!r}, r2={R2!r}, d={d!r})"
+        return None
     if k == "stimson2":
         R1, R2, d = c["R1"], c["R2"], c["d"]
         a1, a2, b1, b2 = vals
@@ -1702,6 +1738,8 @@ def malformed(rng, count):
         out.append({"stream": "malformed", "op": "visc", "T": T, "T2": T, "expect": "ValueError", "why": why})
     for R1, R2, d, why in [(1.0, 1.0, 1.9, "overlap"), (1.0, 2.0, 2.5, "overlap"), (0.5, 0.5, 0.0, "zero distance")]:
         out.append({"stream": "malformed", "op": "stimsonbad", "R1": R1, "R2": R2, "d": d, "expect": "ValueError", "why": why})
+    for R1, R2, d, why in [(1.0, 1.0, 1.9999, "overlap"), (0.1, 4.0, 4.0, "small bead inside the large one"), (2.0, 1.0, 0.0, "zero distance")]:
+        out.append({"stream": "malformed", "op": "bispherical", "R1": R1, "R2": R2, "d": d, "expect": "ValueError", "why": why})
     for fix, why in [([None, -0.1], "relaxation factor < 0"), ([None, 1.0001], "relaxation factor > 1"), ([14000.0, 2.0], "relaxation factor > 1"),
                      ([0.0, None], "diode frequency 0"), ([-14000.0, 0.5], "negative diode frequency"), ([0.0, 0.0], "diode frequency 0")]:
         out.append(fixeddiode_case("malformed", base_cfg(), 1000.0, 500.0, 1.0, fix, [[14000.0, 0.4]], [], expect="ValueError", why=why))
@@ -1796,6 +1834,8 @@ def corpus():
     yield {"stream": "corpus", "op": "stimson2", "R1": 0.5, "R2": 2.0, "d": 2.625}
     yield {"stream": "corpus", "op": "stimson2", "R1": 0.1, "R2": 4.0, "d": 4.1 * 1.0002}
     yield {"stream": "corpus", "op": "stimson2", "R1": 4.0, "R2": 0.1, "d": 820.0}
+    yield {"stream": "corpus", "op": "bispherical", "R1": 0.5, "R2": 2.0, "d": 2.625}
+    yield {"stream": "corpus", "op": "bispherical", "R1": 1.0, "R2": 1.0, "d": 2.000002}
     # a buffer series looked up at the two ends of the pressure range, one after the other, in one process
     yield water_sequence("corpus", [("V", 20.0, 3.0, None), ("D", 20.0, 3.0, None), ("V", 20.0, 3.0, 35.0), ("D", 20.0, 3.0, 35.0),
                                     ("V", 20.0, 3.01, 35.0), ("D", 20.0, 3.01, 35.0), ("V", 20.0, 3.0, 0.1), ("D", 20.0, 3.0, 0.1)])
@@ -1990,6 +2030,11 @@ def grid(tier):
         for R2 in sizes:
             for sr in ([1.0005, 1.05, 2.0, 30.0, 200.0] if q else [1.0002, 1.001, 1.01, 1.05, 1.3, 2.0, 5.0, 30.0, 100.0, 200.0, 1e4]):
                 yield {"stream": "grid", "op": "stimson2", "R1": R1, "R2": R2, "d": (R1 + R2) * sr}
+    # the bispherical coordinates the series is written in: every ordered pair of sizes x separations from contact + 1e-6 outwards
+    for R1 in sizes:
+        for R2 in sizes:
+            for sr in [1.000001, 1.0002, 1.01, 1.3, 2.0, 30.0, 1e4]:
+                yield {"stream": "grid", "op": "bispherical", "R1": R1, "R2": R2, "d": (R1 + R2) * sr}
     # the public water functions asked several things in a row: walk one coordinate, keep the other two
     Ts = [20.0, 52.4, 100.0, 149.5] if q else linspace(20.0, 149.5, 9)
     cs = [0.0, 1e-6, 0.5, 3.0, 4.7] if q else [0.0, 1e-9, 1e-6, 1e-3, 0.1, 0.5, 1.0, 2.0, 3.0, 4.0, 4.7]
@@ -2101,6 +2146,7 @@ def random_cases(tier, rng):
                            s.loguniform(100.0, 1e4)] + ([1.0005] if i % 10 == 0 else []))
             Ra, Rb = R * 1e6, R2 * 1e6
             yield {**base, "op": "stimson2", "R1": Ra, "R2": Rb, "d": (Ra + Rb) * sr}
+            yield {**base, "op": "bispherical", "R1": Ra, "R2": Rb, "d": (Ra + Rb) * s.choice([sr, 1.0 + s.loguniform(1e-6, 1.0), s.loguniform(1.0001, 1e4)])}
         elif kind == "salt":
             T = s.choice([20.0, s.uniform(20.0, 149.9), s.uniform(20.0, 149.9), s.uniform(20.0, 40.0)])
             m = s.choice([0.0, 5.9, s.uniform(0.0, 5.9), s.uniform(0.0, 5.9), s.loguniform(1e-9, 1.0)])
@@ -2285,7 +2331,18 @@ def extra_coverage(results):
         if "f" in c and c["f"] > 0:
             d = int(math.floor(math.log10(c["f"])))
             fdec[str(d)] = fdec.get(str(d), 0) + 1
-    return {"case_kinds": kinds, "error_kinds": errs, "explore_only_observables": outside, "wall_ratio_histogram": near_wall,
+    stim = {"model_asked": 0, "oracle_only(F14 gap<1e-6)": 0, "gap<1e-3": 0, "gap 1e-3..1": 0, "gap>=1": 0, "bispherical_cases": kinds.get("bispherical", 0)}
+    for r in results:
+        for o, mo in zip(ops(r["case"]), r["model"]):
+            if o.startswith("c20.stimson"):
+                stim["model_asked"] += 1
+                cc = r["case"]
+                r1, r2 = (cc["R"], cc["R"]) if cc["op"] == "couple" else (cc["R1"], cc["R2"])
+                gap = cc["d"] / (r1 + r2) - 1
+                stim["gap<1e-3" if gap < 1e-3 else "gap 1e-3..1" if gap < 1 else "gap>=1"] += 1
+            elif o == "c20.outside stimson":
+                stim["oracle_only(F14 gap<1e-6)"] += 1
+    return {"stimson_series": stim, "case_kinds": kinds, "error_kinds": errs, "explore_only_observables": outside, "wall_ratio_histogram": near_wall,
             "hydro_branches": hydro_branch, "frequency_decades": fdec, "wrapper_chain_shapes": chains, "set_drag_models": setdrag, "stimson_radius_ratios": unequal,
             "fixed_diode_filter": fixedd, "coupling_2d_arrays": cvec, "water_query_sequences": wseq, "tolerance": "rel 1e-9 model vs implementation (complex drag: 1e-9 of the modulus)",
             "exhaustive": False,
